@@ -325,6 +325,41 @@ def _e3d_inline(repo, toks, spec, variants):
     return toks, log, changed, changes
 
 
+def _sig_conj(text1, text2, locator):
+    """Conjunction of two generated `external_body` signatures of the same function: the clause lists after the (identical)
+    signature are merged: requires = both, ensures = both, decreases = the first one's (if any)."""
+    def split(text):
+        tail = ' { unimplemented!() }'
+        body = text.rstrip()
+        if not body.endswith(tail.strip()):
+            raise UnitProblem('SIG and=: unexpected stub shape for ' + locator)
+        body = body[:body.rindex('{ unimplemented!() }')]
+        parts = re.split(r'\b(requires|ensures|decreases)\b', body)
+        sig = parts[0]
+        cl = {'requires': [], 'ensures': [], 'decreases': []}
+        for k in range(1, len(parts), 2):
+            c = parts[k + 1].strip()
+            while c.endswith(','):
+                c = c[:-1].rstrip()
+            if c:
+                cl[parts[k]].append(c)
+        return sig, cl
+    sig1, c1 = split(text1)
+    sig2, c2 = split(text2)
+    if ''.join(sig1.split()) != ''.join(sig2.split()):
+        raise UnitProblem('SIG and=: the two copies of %s have different signatures' % locator)
+    out = sig1.rstrip()
+    req = c1['requires'] + c2['requires']
+    ens = c1['ensures'] + c2['ensures']
+    if req:
+        out += ' requires ' + ', '.join(req) + ','
+    if ens:
+        out += ' ensures ' + ', '.join(ens) + ','
+    if c1['decreases']:
+        out += ' decreases ' + ', '.join(c1['decreases'])
+    return out + ' { unimplemented!() }\n'
+
+
 def process_const(repo, annot_rel):
     """Rule E4: a `const NAME: T = ..;` item of the real file (locator `<file> :: const NAME`), erasure-checked against /repo and
     emitted VERBATIM (real tokens only) so that the functions of the unit index the real table.  Functions that depend on it name
@@ -534,6 +569,19 @@ def build_unit(repo, unit_rel, variants=(), canary=False, word=64):
                 opts['wrap'] = wraps[opts['wrap']]
             text, rec = process_fn(repo, rest[0], opts, cmd, canary and cmd == 'FN', variants)
             recs.append(rec)
+            if cmd == 'SIG' and opts.get('and'):
+                # SIG conjunction (added for the int_memsize_* units): `//@@ SIG a.rs and=b.rs` -- two annotated copies of
+                # the SAME item, each with its own contract (each proved as FN in some unit): the callee is seen through
+                # requires(a) && requires(b)  /  ensures(a) && ensures(b)   (sound: {P1}f{Q1}, {P2}f{Q2} |- {P1&P2}f{Q1&Q2})
+                text2, rec2 = process_fn(repo, opts['and'], {}, 'SIG', False, variants)
+                if rec2.locator != rec.locator:
+                    raise UnitProblem('SIG and=: %s and %s are not the same item' % (rec.locator, rec2.locator))
+                text = _sig_conj(text, text2, rec.locator)
+                rec.rules = list(rec.rules) + ['SIG conjunction with the contract of %s [%s]' % (opts['and'], rec2.status)]
+                rec.contract = rec.contract + ' && ' + rec2.contract
+                if rec2.status != 'clean' and rec.status == 'clean':
+                    rec.status = rec2.status
+                    rec.changes = list(rec.changes) + list(rec2.changes)
             out.append('// ---- %s %s  [%s]' % (cmd, rec.locator, rec.status))
             # 1-based line span of the function (and of its canary copy) in the generated file
             start = sum(x.count('\n') + 1 for x in out) + 1
